@@ -224,7 +224,10 @@ def run(tier, seed):
                  ("reversed", lambda v: list(reversed(v))), ("format>8", lambda v: format(v, ">8")), ("format", lambda v: format(v, "")),
                  ("fstring", lambda v: "{:^7}|{!r}".format(v, v)), ("hash-eq", lambda v: v == v)]
         if "__getitem__" not in per_class_redefined.get(cn, ()):
-            unary += [("[0]", lambda v: v[0]), ("[-1]", lambda v: v[-1]), ("[1:3]", lambda v: v[1:3]), ("[::-1]", lambda v: v[::-1]), ("[99]", lambda v: v[99])]
+            unary += [("[0]", lambda v: v[0]), ("[-1]", lambda v: v[-1]), ("[1:3]", lambda v: v[1:3]), ("[::-1]", lambda v: v[::-1]), ("[99]", lambda v: v[99]), ("[-99]", lambda v: v[-99]),
+                      ("[-len-1]", lambda v: v[-len(str(v)) - 1]), ("[-2len]", lambda v: v[-2 * len(str(v))]), ("[-len]", lambda v: v[-len(str(v))]),
+                      ("[len]", lambda v: v[len(str(v))]), ("[-3:99]", lambda v: v[-3:99]), ("[::2]", lambda v: v[::2]), ("[None:None]", lambda v: v[None:None]),
+                      ("['a']", lambda v: v["a"]), ("[1.0]", lambda v: v[1.0]), ("[True]", lambda v: v[True])]
         for nm, f in unary:
             c.cov["evaluations"] += 1
             nontrivial.add((cn, nm))
